@@ -1,3 +1,4 @@
 pub use vcore::{alphabet, report};
 pub mod props;
 pub mod subjects;
+pub mod refmap;
